@@ -1958,6 +1958,36 @@ class FieldNamedLikeMethod(Base):
       s.p @= zext(s.w.get_type ^ 5, 8)
 
 
+# ------------------------------------------------------------------ names that start with "def"
+@design(lambda st, a, b, sel, en, reset: (None, {"o": b, "p": (a + 1) & M8, "q": (a + 2) & M8}))
+class NameStartsWithDef(Base):
+  """statements that begin with an identifier starting with the letters d-e-f (the source of a block is de-indented before it is parsed)"""
+  def construct(s):
+    s.ports()
+    s.o = OutPort(Bits8)
+    s.p = OutPort(Bits8)
+    s.q = OutPort(Bits8)
+    s.w = Wire(Bits8)
+
+    @s.func
+    def defer_write(x):
+      s.p @= x + 1
+
+    @update
+    def up_nsd_w():
+      s.w @= s.a
+
+    @update
+    def up_nsd_o():
+      s.o @= s.b
+      defer_write(s.w)
+
+    @update
+    def up_nsd_q():
+      default = s.w + 2
+      s.q @= default
+
+
 def sequences():
   """input sequences (lists of dicts): one long deterministic walk covering every (sel, en) with varied a, b; reset pulses inside"""
   A = (0, 1, 0x5A, 0xFF, 0x80, 0x0F, 0x37)
